@@ -90,6 +90,11 @@ def gen(rng, tier):
     # a spline basis with no column at all (df=0, degree=0, no intercept): listed finding KF-C04-2
     for f in ["y ~ bs(x, df=0, degree=0)", "y ~ z + bs(x, df=0, degree=0)", "y ~ x + (bs(z, df=0, degree=0) | g)"]:
         cases.append({"formula": f, "frame": gen_dm.make_frame(rng), "na": "drop", "kind": "zero-width"})
+    # a multi-column numeric component that is NOT the last factor of an interaction: labels and columns in written order
+    for f in ["y ~ poly(x, 2, raw=True):f", "y ~ 0 + bs(x, df=3):f", "y ~ f:poly(x, 2, raw=True)",
+              "y ~ 0 + poly(x, 2, raw=True):f:z", "y ~ bs(z, df=4):x", "y ~ x + (0 + poly(x, 2, raw=True):f | g)"]:
+        for _ in range(2):
+            cases.append({"formula": f, "frame": gen_dm.make_frame(rng), "na": "drop", "kind": "matrix-in-interaction"})
     return cases
 
 
